@@ -403,6 +403,46 @@ impl C18Check {
                 let var = observe(&var_text, Some(&vtoks), input_ids);
                 let target = node_at(ast, &path).map(|n| def_of(n)).unwrap_or_default();
                 compare(kind, &target, &base_text, &base, &var_text, var, ctx);
+                if kind == "parenthesise-operand" {
+                    continue;
+                }
+                // 4a. the added block glued to what it stands next to (`]` always ends a token, `[` always starts one, so
+                // the tokens are certainly the same), 4b. a second block without effect directly in front of the added one
+                let mut glued = 0;
+                for at in 1..vtoks.len() {
+                    let after_block = matches!(&vtoks[at - 1], Tok::Close(']')) && matches!(&vtoks[at], Tok::Atom(..) | Tok::Open(_));
+                    let before_block = matches!(&vtoks[at], Tok::Open('[')) && matches!(&vtoks[at - 1], Tok::Atom(..) | Tok::Close(_));
+                    if !(after_block || before_block) || glued >= 4 {
+                        continue;
+                    }
+                    glued += 1;
+                    let text = render_with(&vtoks, at, "", "");
+                    ctx.sub_evals += 1;
+                    let var = observe(&text, Some(&vtoks), input_ids);
+                    if matches!(var, Err("layout-merge")) {
+                        ctx.fail(
+                            format!("layout:side-effect-block-glued-to-its-neighbour:{}:tokens-differ", target),
+                            format!("{:?} is accepted, in its rewrite {:?} (a block glued to its neighbour) the lexer no longer returns the same significant tokens", base_text, text),
+                        );
+                        continue;
+                    }
+                    compare("side-effect-block-glued-to-its-neighbour", &target, &base_text, &base, &text, var, ctx);
+                }
+                if kind == "add-side-effect-before" {
+                    let found = (0..vtoks.len().saturating_sub(3)).find(|&i| {
+                        matches!(&vtoks[i], Tok::Open('[')) && matches!(&vtoks[i + 1], Tok::Atom("Number", t) if t == "1") && matches!(&vtoks[i + 2], Tok::Close(']')) && matches!(&vtoks[i + 3], Tok::Atom(..))
+                    });
+                    if let Some(i) = found {
+                        let mut two: Vec<Tok> = vtoks[..i].to_vec();
+                        two.extend([Tok::Open('['), Tok::Atom("Number", "7".to_string()), Tok::Close(']')]);
+                        two.extend_from_slice(&vtoks[i..]);
+                        for text in [render(&two, Layout::Spaced), render_with(&two, i + 3, "", "")] {
+                            ctx.sub_evals += 1;
+                            let var = observe(&text, Some(&two), input_ids);
+                            compare("add-two-side-effects-before", &target, &base_text, &base, &text, var, ctx);
+                        }
+                    }
+                }
             }
         }
     }
@@ -522,7 +562,7 @@ impl Check for C18Check {
     }
     fn rule(&self) -> String {
         "Programs: every core-language AST with at most k nodes (k=3 quick, 4 thorough; the C01 enumerator) printed with single spaces, plus random larger ASTs. For each accepted program every single rewrite is applied at every position (random programs: a tape-chosen subset of positions): \
-         each gap between two tokens is replaced by no space / one space / several spaces / a tab / a line break / an annotation (spaced, or glued to either neighbour) / a comment line (inside a list-space or blank-line gap: widening with blanks and tabs, an annotation before the operator's white space, after it, or after it and glued to the next token); two gaps at once (a line break in one, trailing blanks or a tab before a line break in a later one, and the other way round); each blank line additionally rewritten to hold a space, a tab, or tabs and spaces; trailing or leading white space, annotation or comment line; parentheses around one complete operand; a side-effect block without an observable effect after or before one value (body: a constant, a constant with a block of its own, a list, a product whose first factor is grouped or negated). \
+         each gap between two tokens is replaced by no space / one space / several spaces / a tab / a line break / an annotation (spaced, or glued to either neighbour) / a comment line (inside a list-space or blank-line gap: widening with blanks and tabs, an annotation before the operator's white space, after it, or after it and glued to the next token); two gaps at once (a line break in one, trailing blanks or a tab before a line break in a later one, and the other way round); each blank line additionally rewritten to hold a space, a tab, or tabs and spaces; trailing or leading white space, annotation or comment line; parentheses around one complete operand; a side-effect block without an observable effect after or before one value (body: a constant, a constant with a block of its own, a list, a product whose first factor is grouped or negated), also glued to its neighbour without white space, and two such blocks in a row before one value. \
          A rewrite is applicable only if the lexer still produces the same significant tokens (otherwise counted, not judged) and is meaning-preserving by construction (not applied to a property name after `.`, to a same-kind list item, to an arm of an else chain, or around separators). \
          Oracle (metamorphic): the parse tree modulo Group nodes and side-effect blocks is unchanged and the final value on both data implementations and two inputs is unchanged. \
          Non-trivial = a gap rewrite between tokens of different classes; distinct = distinct (program, position, rewrite)."
